@@ -14,7 +14,8 @@ use super::{DiagnosticLocation, DiagnosticMessage, SeverityLevel};
 /// and to use `LintErrors`, as those are recoverable.
 pub enum CfgError {
     /// This error occurs when a label is used but not defined.
-    LabelsNotDefined(HashSet<LabelStringToken>),
+    /// The labels that are used and never defined, each at its first use, in program order
+    LabelsNotDefined(Vec<LabelStringToken>),
     /// This error occurs when a label is defined more than once.
     DuplicateLabel(LabelStringToken),
     /// This error occurs when a return statement is used but can be reached by
@@ -57,7 +58,7 @@ impl Display for CfgError {
     fn fmt(&self, f: &mut std::fmt::Formatter<'_>) -> std::fmt::Result {
         match self {
             CfgError::LabelsNotDefined(labels) => {
-                write!(f, "Labels not defined: {}", labels.as_str_list())
+                write!(f, "Labels not defined: {}", in_program_order(labels))
             }
             CfgError::DuplicateLabel(label) => {
                 write!(f, "Duplicate label: {label}")
@@ -95,13 +96,19 @@ impl From<&CfgError> for SeverityLevel {
     }
 }
 
-/// The label the error is located at: the first one by position (then by name), which does
-/// not depend on the iteration order of the set.
-fn first_label(labels: &HashSet<LabelStringToken>) -> &LabelStringToken {
+/// The label the error is located at: the first use of an undefined label in program order
+/// (positions inside files say nothing about the order of labels that stand in different files).
+fn first_label(labels: &[LabelStringToken]) -> &LabelStringToken {
+    labels.first().unwrap()
+}
+
+/// The names in the order of their first use (neither hashing nor spelling decides it).
+fn in_program_order(labels: &[LabelStringToken]) -> String {
     labels
         .iter()
-        .min_by_key(|label| (label.range(), label.to_string()))
-        .unwrap()
+        .map(std::string::ToString::to_string)
+        .collect::<Vec<_>>()
+        .join(", ")
 }
 
 impl DiagnosticLocation for CfgError {
@@ -166,7 +173,7 @@ impl DiagnosticMessage for CfgError {
             ),
             CfgError::LabelsNotDefined(labels) => format!(
                 "The labels {} are used but not defined. Labels must be defined within your file.",
-                labels.as_str_list()
+                in_program_order(labels)
             ),
             CfgError::MultipleLabelsForReturn(_, labels) => format!(
                 "The return statement can be reached by multiple function labels: {}.\n\n\
